@@ -16,6 +16,7 @@ def check(rep):
     ER.rule_instance_only(ctx)
     ER.rule_installed_function(ctx)
     ER.rule_init_delegates(ctx)
+    ER.rule_history_free(ctx)
     ER.rule_call_forwards(ctx, rid="C11.CALL-FORWARDS", aspects=("result",))
     ER.rule_fresh_per_parse(ctx, rid="C11.FRESH-LEXER-PER-PARSE", kinds=("Lexer",))
     ER.rule_value_keyed_caches(ctx, rid="C11.NO-VALUE-KEYED-CACHE", modules={"experiment_evaluator.py", "utils/wraper_functions.py"})
